@@ -79,6 +79,9 @@ pub struct Opts {
     pub size: u32,
     /// Strict mode (replay): known-finding signatures are not excluded
     pub strict: bool,
+    /// Feature-matrix mode (E6): no deferral after the Stakker is gone (where closures end up
+    /// then differs per deferrer by design), so abrupt drops only when nothing can defer later
+    pub matrix: bool,
 }
 
 impl Default for Opts {
@@ -88,6 +91,7 @@ impl Default for Opts {
             focus: String::new(),
             size: 0,
             strict: false,
+            matrix: false,
         }
     }
 }
